@@ -9,7 +9,7 @@ int main(int argc, char **argv) {
   std::string clean; { std::istringstream in(text); std::string l; while (std::getline(in, l)) { if (!l.empty() && l[0] == '#') continue; clean += l + "\n"; } }
   std::string prop = "C01"; { size_t p = clean.find("prop "); if (p == 0 || (p != std::string::npos && clean[p - 1] == '\n')) prop = clean.substr(p + 5, 3); }
   vf::stats().arm_watchdog();
-  sim::Scenario sc; sim::RunResult r = sc.run(clean, prop);
+  sim::RunResult r = sim::run_prop(clean, prop);
   ares_library_cleanup();
   if (!r.v.ok) { if (!r.v.detail.empty()) vf::msg("DETAIL %s\n", r.v.detail.substr(0, 1500).c_str()); vf::msg("FAIL %s\n", r.v.sig.c_str()); return 1; }
   vf::msg("PASS\n"); return 0;
